@@ -732,6 +732,16 @@ func ruleAnonTag(c *Ctx, rule string) {
 					if c.mentionsNamedField(src, "Type", 4) {
 						kindTested = true
 					}
+					// a helper that strips one pointer level: derefType(field.Type)
+					if hc, ok := src.(*ssa.Call); ok && !hc.Call.IsInvoke() {
+						if h := hc.Call.StaticCallee(); h != nil && c.P.InPkg(h) && len(hc.Call.Args) == 1 && isNamed(h.Signature.Results().At(0).Type(), "reflect", "Type") {
+							for _, s2 := range append(traceSources(hc.Call.Args[0]), hc.Call.Args[0]) {
+								if c.mentionsNamedField(s2, "Type", 4) {
+									kindTested = true
+								}
+							}
+						}
+					}
 					if ec, ok := src.(*ssa.Call); ok && ec.Call.IsInvoke() && ec.Call.Method.Name() == "Elem" {
 						for _, s2 := range append(traceSources(ec.Call.Value), ec.Call.Value) {
 							if c.mentionsNamedField(s2, "Type", 4) {
@@ -1531,6 +1541,16 @@ func ruleC16Cycle(c *Ctx) {
 					dominated = true
 				}
 			}
+			// (the marking helper is called under `t.Name() != ""`; the recursion comes after that diamond)
+			if !dominated && lc != nil && lc.Parent() == m.fn {
+				if lcc, ok := lc.(*ssa.Call); ok && nameTestDominates(m, lcc) {
+					for _, mk := range marks {
+						if core.ReachableFromInstr(mk, lc) {
+							dominated = true
+						}
+					}
+				}
+			}
 			if !dominated {
 				okDom = false
 			}
@@ -1603,6 +1623,37 @@ func ruleC16Cycle(c *Ctx) {
 				}
 				if okExits {
 					covered = true
+				}
+			}
+			if !covered {
+				okUnmark = false
+			}
+		}
+	}
+	// a helper that tests and marks, with the deferred delete left in the inference function: each place where the
+	// helper is called is followed, where it did not fail, by the deferral of the delete
+	if !okUnmark && mark.Parent() != m.fn && len(marks) > 0 {
+		var dels []*ssa.Defer
+		core.EachInstr(m.fn, func(i ssa.Instruction) {
+			if d, ok := i.(*ssa.Defer); ok && core.CalleeKey(&d.Call) == "builtin.delete" && m.isSeen(d.Call.Args[0]) {
+				dels = append(dels, d)
+			}
+		})
+		okUnmark = len(dels) > 0
+		for _, mk := range marks {
+			covered := false
+			ifi, isIf := mk.Block().Instrs[len(mk.Block().Instrs)-1].(*ssa.If)
+			for _, d := range dels {
+				if d.Block() == mk.Block() && core.Dominates(mk, d) {
+					covered = true
+				}
+				if isIf && isErrNilTest(ifi.Cond) {
+					// the branch taken when the helper did not fail
+					for si, sc := range mk.Block().Succs {
+						if sc == d.Block() && !blockReturnsErrorDeepLocal(sc) && blockReturnsErrorDeepLocal(mk.Block().Succs[1-si]) {
+							covered = true
+						}
+					}
 				}
 			}
 			if !covered {
